@@ -46,6 +46,12 @@ type rworld struct {
 	heldDone chan error
 	heldPeer int
 	heldMsgs int
+
+	hsend     int
+	ncalls    int
+	abandoned bool
+	reent     chan reentReq
+	done      chan struct{}
 }
 
 var realPort = 4000
@@ -102,8 +108,8 @@ func (w *rworld) startPeer(p *rpeer, first bool) error {
 	return nil
 }
 
-func newRworld(tcp bool, np, nh int) (*rworld, error) {
-	w := &rworld{tcp: tcp, armed: -1, blockedOn: -1, blockedHit: make(chan struct{}, 4), release: make(chan struct{})}
+func newRworld(tcp bool, np, nh, hsend int) (*rworld, error) {
+	w := &rworld{tcp: tcp, hsend: hsend, reent: make(chan reentReq), done: make(chan struct{}), armed: -1, blockedOn: -1, blockedHit: make(chan struct{}, 4), release: make(chan struct{})}
 	if !tcp {
 		w.lm = network.NewLocalManager()
 	}
@@ -123,6 +129,17 @@ func newRworld(tcp bool, np, nh int) (*rworld, error) {
 		atomic.AddInt32(&w.disp, 1)
 		return nil
 	})
+	go func() {
+		for {
+			select {
+			case rq := <-w.reent:
+				w.S.Send(rq.si, &TMsg{ID: rq.id})
+				close(rq.done)
+			case <-w.done:
+				return
+			}
+		}
+	}()
 	w.sched = lib.NewSched()
 	network.SetVerifHook(w.sched.Hook)
 	go S.Start()
@@ -158,6 +175,8 @@ func (w *rworld) onHandler(h int, si *network.ServerIdentity) {
 	if p >= 0 {
 		w.calls[h][p]++
 	}
+	w.ncalls++
+	ncalls := w.ncalls
 	block := w.armed == h
 	var rel chan struct{}
 	if block {
@@ -166,6 +185,7 @@ func (w *rworld) onHandler(h int, si *network.ServerIdentity) {
 		rel = w.release
 	}
 	w.mu.Unlock()
+	reentrant(w.S, si, h, w.hsend, ncalls, w.reent)
 	if block {
 		w.blockedHit <- struct{}{}
 		<-rel
@@ -189,7 +209,7 @@ func (w *rworld) tabCount(p int) int {
 	return len(w.S.VerifConnList(w.peers[p].si.GetID()))
 }
 
-const settleDeadline = 6 * time.Second
+const settleDeadline = 5 * time.Second
 
 // settle waits until S has noticed every death: a peer that is down (or any peer once S is
 // closed) has no registered connection left, except the one whose loop is blocked in a handler.
@@ -240,7 +260,7 @@ func (w *rworld) send(p int, ids []int) (int, bool) {
 			return 2, false
 		}
 		return 1, false
-	case <-time.After(30 * time.Second):
+	case <-time.After(12 * time.Second):
 		return 0, true
 	}
 }
@@ -283,7 +303,7 @@ func (w *rworld) exec(o *opj) (int, bool, bool) {
 			_, err := w.S.Send(w.peers[o.P].si, tmsgs(o.M)...)
 			done <- err
 		}()
-		deadline := time.Now().Add(30 * time.Second)
+		deadline := time.Now().Add(12 * time.Second)
 		for {
 			select {
 			case err := <-done:
@@ -325,7 +345,7 @@ func (w *rworld) exec(o *opj) (int, bool, bool) {
 				w.waitDelivered(w.heldPeer, before, w.heldMsgs)
 			}
 			return r, false, !w.settle()
-		case <-time.After(30 * time.Second):
+		case <-time.After(12 * time.Second):
 			return 0, false, true
 		}
 	case "peersend":
@@ -344,7 +364,7 @@ func (w *rworld) exec(o *opj) (int, bool, bool) {
 		}()
 		select {
 		case <-done:
-		case <-time.After(30 * time.Second):
+		case <-time.After(12 * time.Second):
 			return 0, false, true
 		}
 		waitUntil(func() bool { return atomic.LoadInt32(&w.disp) > before }, 3*time.Second)
@@ -456,8 +476,19 @@ func (w *rworld) snapshot(res int, skip, timeout bool) (string, map[string]inter
 	tab := make([]int, np)
 	deliv := make([]string, np)
 	delivH := make([][]int, np)
+	got := make(chan struct{})
+	go func() {
+		defer close(got)
+		for p := range w.peers {
+			tab[p] = w.tabCount(p)
+		}
+	}()
+	select {
+	case <-got:
+	case <-time.After(5 * time.Second):
+		timeout = true
+	}
 	for p, pe := range w.peers {
-		tab[p] = w.tabCount(p)
 		var d []int
 		for _, c := range pe.counts {
 			d = append(d, int(atomic.LoadInt32(c)))
@@ -487,6 +518,15 @@ func (w *rworld) snapshot(res int, skip, timeout bool) (string, map[string]inter
 }
 
 func (w *rworld) cleanup() {
+	close(w.done)
+	if w.abandoned {
+		w.mu.Lock()
+		w.finished = true
+		w.mu.Unlock()
+		w.sched.ReleaseAll()
+		network.SetVerifHook(func(string, ...interface{}) {})
+		return
+	}
 	w.mu.Lock()
 	w.finished = true
 	rel := w.release
@@ -517,7 +557,7 @@ func (w *rworld) cleanup() {
 }
 
 func runReal(in input) lib.Case {
-	w, err := newRworld(in.TCP, in.NP, in.NH)
+	w, err := newRworld(in.TCP, in.NP, in.NH, in.HSend)
 	if err != nil {
 		if w != nil {
 			w.cleanup()
@@ -539,8 +579,12 @@ func runReal(in input) lib.Case {
 		if res > 0 {
 			sends++
 		}
+		if to {
+			w.abandoned = true
+			break
+		}
 	}
-	coq := fmt.Sprintf("CReal %s %d %d %s %s", lib.Bool(in.TCP), in.NP, in.NH, lib.List(ops), lib.List(snaps))
+	coq := fmt.Sprintf("CReal %s %s %d %d %s %s", lib.Bool(in.TCP), lib.Bool(in.HSend > 0), in.NP, in.NH, lib.List(ops), lib.List(snaps))
 	cl := "real-mem"
 	if in.TCP {
 		cl = "real-tcp"
@@ -560,6 +604,9 @@ func runReal(in input) lib.Case {
 	}
 	if kinds["crashsending"] {
 		cl += "-closingsend"
+	}
+	if in.HSend > 0 {
+		cl += "-handlersends"
 	}
 	if in.Label != "" {
 		cl += ":" + in.Label
